@@ -20,8 +20,9 @@ func checkC25(w *World, r *Report, tier string) propMeta {
 	c25R1(w, r)
 	c25R2(w, r)
 	n := c25R3(w, r)
+	c25R4(w, r)
 	return propMeta{
-		explanation: fmt.Sprintf("(R1) lossless JSON shape: every exported query type has only exported fields, no `json:\"-\"`, no renaming that collides, no custom (Un)MarshalJSON/Text method, and `omitempty` only on fields whose zero value every evaluator treats as absent (no evaluator distinguishes a nil from an empty slice of an omitempty field); (R2) flattening by abstract interpretation: each flatten function, run on an abstract child list, inlines exactly the children of same-type nodes without a condition and keeps every other child in order, and And/Or wrap the flattened list under their own type; (R3) builder semantics by abstract interpretation of call sequences: implicit calls are ANDed at Build, calls after Match are ANDed with the explicit tree, MatchPrefilter installs the given tree — %d abstract runs; the constant-case tables of the three expression families agree (C01.R3, C02.R4–R5).", n),
+		explanation: fmt.Sprintf("(R4) ownership: the child list a flatten function returns is backed by an array allocated in that call on every path, and And/Or store exactly that list — two trees never share mutable children storage. (R1) lossless JSON shape: every exported query type has only exported fields, no `json:\"-\"`, no renaming that collides, no custom (Un)MarshalJSON/Text method, and `omitempty` only on fields whose zero value every evaluator treats as absent (no evaluator distinguishes a nil from an empty slice of an omitempty field); (R2) flattening by abstract interpretation: each flatten function, run on an abstract child list, inlines exactly the children of same-type nodes without a condition and keeps every other child in order, and And/Or wrap the flattened list under their own type; (R3) builder semantics by abstract interpretation of call sequences: implicit calls are ANDed at Build, calls after Match are ANDed with the explicit tree, MatchPrefilter installs the given tree — %d abstract runs; the constant-case tables of the three expression families agree (C01.R3, C02.R4–R5).", n),
 		notDecided:  "Evaluation equality over all trees on real data; encoding/json's own behaviour; one observation outside static reach: NewQuery().Field(\"a\").Match(x) discards Field(\"a\") while Match(x).Field(\"a\") ANDs it — whether that contradicts 'what the caller wrote' is a semantic question no rule here settles, so it is not claimed.",
 	}
 }
@@ -340,4 +341,96 @@ func c25R3(w *World, r *Report) int {
 		r.check(ab == "" && got == "\"MARK\"", rule, "builder:matchprefilter", w.pos(build.Pos()), "prefilter tree installed as given", "MatchPrefilter does not install the given tree ("+got+" "+ab+")")
 	}
 	return total
+}
+
+// sliceOrigins: where the backing array of a slice value can come from —
+// "fresh" (make, or append growing from nil), or the description of anything
+// else (a parameter, a load from memory the caller can also reach).
+func sliceOrigins(w *World, v ssa.Value, seen map[ssa.Value]bool, out map[string]bool) {
+	if v == nil || seen[v] {
+		return
+	}
+	seen[v] = true
+	switch x := v.(type) {
+	case *ssa.MakeSlice:
+		out["fresh"] = true
+		return
+	case *ssa.Const:
+		if x.IsNil() {
+			out["fresh"] = true // append to nil allocates
+			return
+		}
+	case *ssa.Phi:
+		for _, e := range x.Edges {
+			sliceOrigins(w, e, seen, out)
+		}
+		return
+	case *ssa.Slice:
+		if a, ok := x.X.(*ssa.Alloc); ok && a.Heap {
+			// a composite literal []T{...}: new array sliced whole
+			out["fresh"] = true
+			return
+		}
+		sliceOrigins(w, x.X, seen, out)
+		return
+	case *ssa.ChangeType:
+		sliceOrigins(w, x.X, seen, out)
+		return
+	case *ssa.Call:
+		if b, ok := x.Call.Value.(*ssa.Builtin); ok && b.Name() == "append" {
+			sliceOrigins(w, x.Call.Args[0], seen, out) // may extend the base in place
+			return
+		}
+		if callee := w.staticCallee(&x.Call); callee != nil && strings.HasPrefix(callee.Name(), "flatten") {
+			out["fresh"] = true // checked on its own
+			return
+		}
+	}
+	out[w.path(v)] = true
+}
+
+// c25R4: constructors never let two trees share a mutable child list.
+func c25R4(w *World, r *Report) {
+	const rule = "C25.R4"
+	r.rule(rule, "no shared child lists: the slice each flatten function returns is backed by an array allocated in that call (make, or append from nil) on every path — never an argument's own Children — and And/Or store exactly that slice", 11)
+	for _, name := range []string{"flattenExpressions", "flattenPrefilterExpressions", "flattenRegexExpressions"} {
+		fn := fnOrUndecided(w, r, rule, name)
+		if fn == nil {
+			continue
+		}
+		for i, ret := range newFlow(w, fn, &Classifier{}).Returns() {
+			out := map[string]bool{}
+			sliceOrigins(w, retOperand(ret, 0), map[ssa.Value]bool{}, out)
+			delete(out, "fresh")
+			r.check(len(out) == 0, rule, fmt.Sprintf("%s:return#%d", name, i), w.instrPos(ret), "freshly allocated on every path", "the returned child list can share its backing array with "+strings.Join(sortedKeys(out), ", ")+": appending to a tree built from a shared base overwrites a child of another tree built from the same base — that tree no longer means what its caller wrote")
+		}
+	}
+	// every store to a Children field of an expression type, anywhere in the package
+	stored := map[string]int{}
+	for _, fn := range w.Funcs {
+		if fn.Pkg == nil || fn.Pkg.Pkg.Path() != modulePath {
+			continue
+		}
+		eachInstr(fn, func(in ssa.Instruction) {
+			st, ok := in.(*ssa.Store)
+			if !ok {
+				return
+			}
+			owner, field, _, ok := w.structFieldOf(st.Addr)
+			if !ok || field != "Children" || !(owner == "BloomExpression" || owner == "PrefilterExpression" || owner == "RegexExpression") {
+				return
+			}
+			host := baseName(w.name(fn))
+			stored[host]++
+			out := map[string]bool{}
+			sliceOrigins(w, st.Val, map[ssa.Value]bool{}, out)
+			delete(out, "fresh")
+			r.check(len(out) == 0, rule, fmt.Sprintf("%s:Children#%d", host, stored[host]), w.instrPos(in), "Children is a freshly allocated list", host+" stores a child list backed by "+strings.Join(sortedKeys(out), ", ")+": the new tree shares children storage with another tree")
+		})
+	}
+	for _, name := range []string{"And", "Or", "PrefilterAnd", "PrefilterOr", "RegexAnd", "RegexOr"} {
+		if stored[name] == 0 {
+			r.undecided(rule, name+":Children", "-", name+" no longer stores a Children list: its anchor does not resolve")
+		}
+	}
 }
